@@ -239,6 +239,15 @@ class PEval:
                 if d is None:
                     raise PEvalUnsupported(f"missing argument {p} for {fi.qname}")
                 env[p] = self.eval(d, {}, fi, depth)
+        if not hasattr(self, "_folding"):
+            self._folding = []
+        self._folding.append(id(fi.node))
+        try:
+            return self._call_body(fi, env, depth)
+        finally:
+            self._folding.pop()
+
+    def _call_body(self, fi, env, depth):
         own = [x for x in _walk_own(fi.node)]
         if any(isinstance(x, (ast.Yield, ast.YieldFrom)) for x in own):
             # a generator function: folded eagerly (all elements produced at the call), which is what the lazy original gives whenever producing
@@ -484,6 +493,42 @@ class PEval:
             self._h = Hierarchy(self.prog)
         return self._h
 
+    def _locals_of(self, fi):
+        """names the function binds somewhere in its own body (so that they are locals for the whole body, as in Python)"""
+        node = getattr(fi, "node", None)
+        if not isinstance(node, (ast.FunctionDef, ast.AsyncFunctionDef)):
+            return ()
+        cache = self.__dict__.setdefault("_locals_cache", {})
+        k = id(node)
+        if k not in cache:
+            names, declared = set(), set()
+            for x in _walk_own(node):
+                if isinstance(x, ast.Name) and isinstance(x.ctx, (ast.Store, ast.Del)):
+                    names.add(x.id)
+                elif isinstance(x, (ast.Global, ast.Nonlocal)):
+                    declared |= set(x.names)
+                elif isinstance(x, ast.ExceptHandler) and x.name:
+                    names.add(x.name)
+                elif isinstance(x, (ast.Import, ast.ImportFrom)):
+                    names |= {(a.asname or a.name).split(".")[0] for a in x.names}
+                elif isinstance(x, (ast.ListComp, ast.SetComp, ast.DictComp, ast.GeneratorExp)):
+                    pass
+            # comprehension targets live in the comprehension's own scope
+            comp_targets = set()
+            for x in _walk_own(node):
+                if isinstance(x, ast.comprehension):
+                    comp_targets |= {n.id for n in ast.walk(x.target) if isinstance(n, ast.Name)}
+            params = {a.arg for a in node.args.posonlyargs + node.args.args + node.args.kwonlyargs} | ({node.args.vararg.arg} if node.args.vararg else set()) \
+                | ({node.args.kwarg.arg} if node.args.kwarg else set())
+            plain_stores = set()
+            for x in _walk_own(node):
+                if isinstance(x, (ast.Assign, ast.AugAssign, ast.AnnAssign, ast.For, ast.With, ast.NamedExpr)):
+                    tg = x.targets if isinstance(x, ast.Assign) else [x.target] if isinstance(x, (ast.AugAssign, ast.AnnAssign, ast.For, ast.NamedExpr)) else [i.optional_vars for i in x.items if i.optional_vars is not None]
+                    for t in tg:
+                        plain_stores |= {n.id for n in ast.walk(t) if isinstance(n, ast.Name)}
+            cache[k] = (plain_stores | {h.name for h in _walk_own(node) if isinstance(h, ast.ExceptHandler) and h.name}) - declared - params
+        return cache[k]
+
     def _module_value(self, r, depth):
         """a module-level table the plain constant folder cannot read (function references as values, a comprehension over another table,
         A | B): its defining expression folded once, in the defining module; None when it is not such a table"""
@@ -615,6 +660,9 @@ class PEval:
         if isinstance(e, ast.Name):
             if e.id in env:
                 return env[e.id]
+            if id(getattr(fi, "node", None)) in getattr(self, "_folding", ()) and e.id in self._locals_of(fi):
+                # a local of a function that is being folded from its first statement, read before anything was bound to it on this path
+                raise Raised("UnboundLocalError", e)
             if e.id in _TYPES:
                 return _TYPES[e.id]
             r = self.prog.resolve_name_expr(fi.module, e)
@@ -634,6 +682,10 @@ class PEval:
             mv = self._module_value(r, depth)
             if mv is not None:
                 return mv
+            if r is None and id(getattr(fi, "node", None)) in getattr(self, "_folding", ()):
+                import builtins as _b
+                if not hasattr(_b, e.id) and e.id not in fi.module.consts and e.id not in fi.module.imports and e.id not in fi.module.functions and e.id not in fi.module.classes:
+                    raise Raised("NameError", e)  # neither a local, nor a module-level name, nor a builtin
             return Opaque(e.id)
         if isinstance(e, ast.Attribute):
             r0 = self.prog.resolve_name_expr(fi.module, e) if isinstance(e.value, (ast.Name, ast.Attribute)) else None
@@ -1136,6 +1188,13 @@ class PEval:
                     raise Raised("KeyError", e)
             if base is not None and (type(base) is object or isinstance(base, _Sentinel)):
                 raise Raised("AttributeError", e)  # a bare object() has no methods
+            if base is None and not isinstance(f.value, ast.Constant):
+                try:
+                    really_none = self.eval(f.value, env, fi, depth) is None
+                except PEvalUnsupported:
+                    really_none = False
+                if really_none:
+                    raise Raised("AttributeError", e)  # None.method(...)
             import re as _re2
             if isinstance(base, (_re2.Match, _re2.Pattern)) and f.attr in ("group", "groups", "groupdict", "start", "end", "span", "search", "match", "fullmatch", "sub", "split", "findall"):
                 if any(isinstance(a, Opaque) or not isinstance(a, (str, int, type(None))) for a in list(args) + list(kwargs.values())):
